@@ -2,6 +2,7 @@
 //! for validation against the TLA+ specifications in /verif/specs.
 mod auth_lens;
 mod cat_lens;
+mod crash_lens;
 mod grp_lens;
 mod jrn_lens;
 mod log_lens;
@@ -97,6 +98,10 @@ fn main() {
         "mt" => {
             let l = mt_lens::MtLens::new(&work);
             each_scenario::<mt_lens::Scenario>(&input, &mut tool_errors, |n, s| l.run_scenario(n, s, &mut out))
+        }
+        "crash" => {
+            let l = crash_lens::CrashLens::new(&work);
+            each_scenario::<crash_lens::Scenario>(&input, &mut tool_errors, |n, s| l.run_scenario(n, s, &mut out))
         }
         "grp" => {
             let l = grp_lens::GrpLens::new(&work);
